@@ -66,4 +66,66 @@ theorem valueEq_fuel_mono (env : Env) (f g : Nat) (hfg : f ≤ g) (ty : Ty) (a b
   | refl => exact h
   | step _ ih => exact valueEq_fuel_step env _ ty a b ha hb ih
 
+/-! ## the same for `valueEqZ` (Equal and not differing in the sign of a zero) -/
+
+def FuelStepZ (env : Env) (f : Nat) : Prop :=
+  ∀ ty a b, MapsOK a → MapsOK b → valueEqZ env f ty a b = true → valueEqZ env (f + 1) ty a b = true
+
+theorem namedEqZ_fuel (env : Env) (f : Nat) (ih : FuelStepZ env f) (n : TName) (a b : Value)
+    (ha : MapsOK a) (hb : MapsOK b) (he : namedEqZ env (valueEqZ env f) n a b = true) :
+    namedEqZ env (valueEqZ env (f + 1)) n a b = true := by
+  unfold namedEqZ at he
+  split at he
+  · next p hfind => simp only [namedEqZ, hfind]; exact he
+  · next syms x y hfind => simp only [namedEqZ, hfind]; exact he
+  · next x y hfind => simp only [namedEqZ, hfind]; exact he
+  · next xs ys hfind =>
+    simp only [namedEqZ, hfind]
+    simp only [MapsOK] at ha hb
+    apply List.all_eq_true.2
+    intro fld hfld
+    exact optEqV_mono _ _ _ _
+      (fun x y hx hy e => ih fld.ty x y (lookup_mapsOK xs ha _ _ hx) (lookup_mapsOK ys hb _ _ hy) e)
+      ((List.all_eq_true.1 he) fld hfld)
+  · next members xs ys hfind =>
+    simp only [namedEqZ, hfind]
+    simp only [MapsOK] at ha hb
+    apply List.all_eq_true.2
+    intro m hm
+    exact optEqV_mono _ _ _ _
+      (fun x y hx hy e => ih m.2 x y (lookup_mapsOK xs ha _ _ hx) (lookup_mapsOK ys hb _ _ hy) e)
+      ((List.all_eq_true.1 he) m hm)
+  · cases he
+
+/-- one more unit of fuel keeps a positive verdict -/
+theorem valueEqZ_fuel_step (env : Env) : ∀ f, FuelStepZ env f
+  | 0 => by intro ty a b _ _ h; simp [valueEqZ] at h
+  | f + 1 => by
+    have ih := valueEqZ_fuel_step env f
+    intro ty a b ha hb he
+    unfold valueEqZ at he
+    split at he
+    · rw [valueEqZ]; exact he
+    · next t xs ys =>
+      rw [valueEqZ]
+      simp only [MapsOK] at ha hb
+      exact (genericArray_iff _ xs ys).2 (ArrRel.mono ((genericArray_iff _ xs ys).1 he)
+        (fun x hx y hy e => ih t x y (mapsOKList_mem xs ha x hx) (mapsOKList_mem ys hb y hy) e))
+    · next t xs ys =>
+      rw [valueEqZ]
+      simp only [MapsOK] at ha hb
+      exact (genericMap_iff _ xs ys ha.1 hb.1).2 (MapRel.mono ((genericMap_iff _ xs ys ha.1 hb.1).1 he)
+        (fun x hx y hy e => ih t x.2 y.2 (mapsOKKvs_mem xs ha.2 x hx) (mapsOKKvs_mem ys hb.2 y hy) e))
+    · rw [valueEqZ]
+      exact namedEqZ_fuel env f ih _ _ _ ha hb he
+    · cases he
+
+/-- any larger fuel keeps a positive verdict -/
+theorem valueEqZ_fuel_mono (env : Env) (f g : Nat) (hfg : f ≤ g) (ty : Ty) (a b : Value)
+    (ha : MapsOK a) (hb : MapsOK b) (h : valueEqZ env f ty a b = true) :
+    valueEqZ env g ty a b = true := by
+  induction hfg with
+  | refl => exact h
+  | step _ ih => exact valueEqZ_fuel_step env _ ty a b ha hb ih
+
 end Restli.Codec
